@@ -9,7 +9,7 @@ import vrun
 from props import _nfamily
 from common import cerberus, real_error, canon_errors
 
-LEVEL = "proof"
+LEVEL = "exploration"
 COQ_FILES = ["theories/Model/Normalize.v"]
 FACT_GROUPS = ["F11", "F16"]
 ALLOWED_AXIOMS = []
